@@ -538,14 +538,17 @@ func c05(r *h.Result, rng *h.Rng, tier string, replay string) error {
 	}
 	nStruct, nRaw, batchSize, bombs := 1100, 4000, 40, false
 	nPre, nDecLen := 300, 3000
+	nRect, nRectBig, nParamsCtx, nParamsHead := 520, 12, 400, 700
 	oddPct := 65
 	switch tier {
 	case "thorough":
 		nStruct, nRaw, bombs = 22000, 100000, true
 		nPre, nDecLen = 6000, 100000
+		nRect, nRectBig, nParamsCtx, nParamsHead = 13000, 120, 20000, 9000
 	case "search":
 		nStruct, nRaw, bombs = 11000, 30000, true
 		nPre, nDecLen = 3000, 20000
+		nRect, nRectBig, nParamsCtx, nParamsHead = 6500, 60, 5000, 4000
 		oddPct = 90
 	}
 	// staleness of the hand-made fault placement (Gen.BodyHashes vs the recorded hashes)
@@ -575,6 +578,7 @@ func c05(r *h.Result, rng *h.Rng, tier string, replay string) error {
 	r.Notes = append(r.Notes, "PARTIAL: the theorems are about the model (fault placement, goroutine of each site, tamePanic protocol, waiting logic); scheduler, memory exhaustion, loops inside third-party parsers and goroutine leaks of the real runtime are only explored by this child-process run (support, not an obligation)")
 	r.Rule = "structured: per route documents with 65% ill-shaped variants (dropped field, changed JSON kind, emptied array, wrong id length, absent optional message, truncated, oversize, bad encoding), status compared with the model; non-trivial = not valid by construction; distinct by (route, shape, status). raw: byte mutations of route bodies under gzip/snappy/multipart/ndjson/query-parameter changes, liveness only (fuzzing)"
 
+	r.Rule += "; rect: bodies exercising every decoder's row bookkeeping (oracle only: every request object handed to an insert service has per-row arrays of one length); params-ctx / params-head: header and query-parameter values around every case of the parsing code, compared with the model"
 	r.Rule += "; " + c05AllocRule
 	c := &c05Run{r: r, deadline: deadline, pushRng: rng.Fork()}
 	if err := c.respawn(); err != nil {
@@ -657,6 +661,19 @@ func c05(r *h.Result, rng *h.Rng, tier string, replay string) error {
 		return err
 	}
 	if err := c.preStream(rng.Fork(), nPre, bombs, batchSize); err != nil {
+		return err
+	}
+
+	// ---- what the parsers emit: the oracle of parser_rect_* (c05_rect.go)
+	if err := c.rectStream(rng.Fork(), nRect, nRectBig, batchSize); err != nil {
+		return err
+	}
+
+	// ---- headers and query parameters (c05_params.go)
+	if err := c05ParamsCtx(r, rng.Fork(), nParamsCtx); err != nil {
+		return err
+	}
+	if err := c.paramsHeadStream(rng.Fork(), nParamsHead, batchSize); err != nil {
 		return err
 	}
 
